@@ -679,6 +679,9 @@ def impl_late(label):
 
 
 def run(ctx):
+    # the default pass list composed on one module, then exported (ModulePipe.lean; module_accepts_only_wellformed / module_faults_rejected)
+    import modpipe
+    modpipe.run(ctx)
     rep, rng = ctx.rep, ctx.rng
     rep.extra["rule"] = (
         "single-fault mutants (12 fault classes, up to 3 sites per class per design, sites drawn from every sub-connectable of every "
